@@ -259,7 +259,9 @@ def main(argv):
     failed_gen, tlog = numeric.run_translator()          # regenerates coq/Generated/*.v from /repo (fail closed)
     ok, out = build_coq()
     failed = failed_files(out) if not ok else []
-    hand_failed = [f for f in failed if not is_tfile(f)]
+    # a broken Props file of ANOTHER property is not this check's business (its own check reports it);
+    # a broken Proofs/Model/Base file is, and so is this property's own Props file (compiled just below)
+    hand_failed = [f for f in failed if not is_tfile(f) and not f.startswith("Props/")]
     if (not ok and not failed) or hand_failed:
         log("Coq build failed (hand-written development):\n" + out[-6000:])
         return 2
